@@ -165,8 +165,9 @@ class _LinearMatrix_dense_forward_simple_covariance(_AbstractDistribution):
         if type(data_variance) == _numpy.ndarray:
             self.data_variance = data_variance.astype(dtype)
         else:
-            # There are no float32 for normal numeric instances
-            self.data_variance = data_variance
+            # There are no float32 for normal numeric instances; a NumPy scalar is a
+            # scalar variance as well, not a column of variances
+            self.data_variance = float(data_variance)
         self.data_sigma = self.data_variance**0.5
 
         # Depending on whether the data or the model space dimension is bigger,
@@ -336,7 +337,8 @@ class _LinearMatrix_sparse_forward_simple_covariance(_AbstractDistribution):
         if type(data_variance) == _numpy.ndarray:
             self.data_variance = data_variance.astype(dtype)
         else:
-            self.data_variance = data_variance
+            # A NumPy scalar is a scalar variance as well, not a column of variances
+            self.data_variance = float(data_variance)
         self.data_sigma = self.data_variance**0.5
         self.use_mkl = use_mkl
         self.dtype = dtype
